@@ -440,6 +440,13 @@ def r7_pure_properties(ctx, rep):
     common.pure_properties(ctx, rep)
 
 
+
+def r8_literal_continuation(ctx, rep):
+    """a character literal continued over two lines keeps its blanks: the reader removes exactly the & characters
+    (shared with C02.R5)"""
+    from . import c02
+    c02.r5_continuation(ctx, rep)
+
 RULES = [
     RuleSpec("C18.R5", r5_selector_regexes, "kind/len selector regexes capture the whole expression", floor=2),
     RuleSpec("C18.R4", r4_literals_and_argument_attributes, "literal case is preserved; argument attributes are complete", floor=3),
@@ -449,4 +456,5 @@ RULES = [
     RuleSpec("C18.R3", r3_heading, "procedure heading assembly", floor=7),
     RuleSpec("C18.R6", r6_relurl_plain_text, "relurl rewrites links and absolute paths only", floor=1),
     RuleSpec("C18.R7", r7_pure_properties, "display properties are free of side effects", floor=8),
+    RuleSpec("C18.R8", r8_literal_continuation, "continued literals keep their blanks (shared with C02.R5)", floor=3),
 ]
